@@ -512,6 +512,11 @@ def r12_close_is_never_cancelled(ctx):
             else:
                 continue
             n += 1
+            reg = [s_ for tt in terms for s_ in _future_calls(tt) if is_call_term(s_, "SessionPool::add_idle_session")]
+            if reg:
+                ctx.ob("R09.12", "%s|%s#%d:registration" % (key.split("::{closure")[0], what, n), False, c.site,
+                       "the registration of a session in the pool (add_idle_session) is raced against %s: when the pool lock is busy for longer (a reaper pass waiting for a slow close), the new session is used "
+                       "but never enters the idle map — it is never reused and never reaped, and stays open for the life of the process" % what)
             hit = [s_ for tt in terms for s_ in _future_calls(tt) if is_call_term(s_, "Session::close")]
             ctx.ob("R09.12", "%s|%s#%d" % (key.split("::{closure")[0], what, n), not hit, c.site, "the raced future is not Session::close()" if not hit else
                    "Session::close() is raced against %s: close() flags the session closed before it waits for the writer, so a cancelled close() leaves a session that reports closed, is dropped by its owner, "
@@ -519,7 +524,30 @@ def r12_close_is_never_cancelled(ctx):
     ctx.floor("R09.12", "timeout / select! sites examined", n, 5)
 
 
+def r13_dispatcher_never_waits_for_a_consumer(ctx):
+    """a stream's consumer holds `Stream.reader` while it is parked in read(), waiting for the dispatcher to deliver data or to
+    drop the sender (end-of-stream).  The receive task therefore never queues for that mutex — anywhere below recv_loop /
+    handle_frame / close: it would wait for the consumer, which waits for it, and no further frame of the session (data of other
+    streams, keep-alives, the Alert) is ever processed"""
+    names = {cls: n[0] for cls, n in lock_fields(ctx.P).items()}
+    n = 0
+    for role in ("client", "server"):
+        la = ctx.locks(role)
+        for fn in ("recv_loop", "handle_frame", "close", "handle_io_error"):
+            key = S + fn + "::{closure#0}"
+            if key not in ctx.P.bodies:
+                continue
+            n += 1
+            hit = [(cls, mode, chain) for (cls, mode), chain in la.summary.get(key, {}).items() if names.get(cls) == "Stream.reader"]
+            ctx.ob("R09.13", "%s|%s:never-queues-for-Stream.reader" % (role, fn), not hit, "",
+                   "nothing reachable from %s acquires Stream.reader" % fn if not hit else
+                   "%s can queue for Stream.reader (%s): a consumer parked in read() holds that mutex until the receive task delivers data or drops the sender, so the two wait for each other and the session "
+                   "processes no further frame" % (fn, " ; ".join(hit[0][2])[:260]), path=None if not hit else hit[0][2])
+    ctx.floor("R09.13", "receive-side functions examined for Stream.reader", n, 6)
+
+
 def run(ctx):
+    r13_dispatcher_never_waits_for_a_consumer(ctx)
     r12_close_is_never_cancelled(ctx)
     r11_only_write_locks_across_transport_writes(ctx)
     from . import C20 as _C20p
